@@ -712,5 +712,29 @@ pub fn oracle(ctx: &mut Ctx) {
             }
         }
     }
+    // ---- animated inputs: the property's predicate on the default image, C10's on the frames (they are filtered with
+    // the same alpha switch and recompressed under the same rules as the main image) --------------------------------
+    if matches!(prop.as_str(), "C01" | "C02" | "C03" | "C04" | "C08") {
+        for _ in 0..(ctx.n / 12).max(8) {
+            let (mut case, _) = crate::corr_eval::apng_case_with(&mut rng, false);
+            let mut o = gen_opts(&mut rng, profile, ctx.tier_thorough);
+            o.strip = if rng.chance(1, 4) { HStrip::Safe } else { HStrip::None };
+            o.scale_16 = false;
+            if prop == "C03" { o.optimize_alpha = true; }
+            // an animation keeps its layout whatever is requested (all transformation classes are switched off for it):
+            // C08's clause "a forced run honours the requested interlacing" does not apply, C10's "unchanged" does
+            if prop == "C08" { o.interlace = None; }
+            case.opts = o;
+            st.count("animated_cases");
+            let out = run_case(&case.input, &case.opts);
+            judge(&prop, &case, &out, &mut st);
+            if let (Outcome::Ok(b), Ok(inp)) = (&out, decode(&case.input)) {
+                match decode(b) {
+                    Ok(d) => crate::meta_oracle::judge_c10(&case, &inp, &d, &mut st),
+                    Err(e) => st.fail("undecodable-output", format!("output of an animated input does not decode: {}", e), case.replay_json()),
+                }
+            }
+        }
+    }
     ctx.write_stats(&st);
 }
